@@ -26,7 +26,7 @@ PROPS = {
         "expect_probes": ["c02.cli.accept", "c02.srv.accept", "c02.cli.drained", "srv.outseq_wrap", "srv.inseq_wrap", "c02.srv.accept.raw"],
     },
     "C10": {
-        "rule": "strict RFC 1035 parse of every DNS-mode datagram emitted by the real programs in tunnel runs (all types/codecs) plus probe runs with NS/A queries; "
+        "rule": "strict RFC 1035 parse of every DNS-mode datagram emitted by the real programs in tunnel runs (all types/codecs) plus forward-scenario runs in which askers send NS queries for the domain and names below it and A queries for ns./www. over IPv4 and IPv6 (content of those answers is checked: ns.<matched domain>, one address record), re-delivery runs and fragment-size probe runs; "
                 "non-trivial = handshake completed and >=50 messages checked; distinct = distinct run fingerprints",
         "jobs": [
             {"scen": "tunnel", "sets": {"mode": "clean"}, "quick": 1500, "thorough": 50000},
@@ -35,7 +35,7 @@ PROPS = {
             {"scen": "forward", "sets": {}, "quick": 1500, "thorough": 50000},
             {"scen": "probe", "sets": {}, "quick": 600, "thorough": 30000},
         ],
-        "expect_probes": ["c10.checked"],
+        "expect_probes": ["c10.checked", "c10.ns_answers", "c10.ns_with_address", "c10.a_answers"],
     },
     "C14": {
         "rule": "ledger of every DNS query datagram the real server receives vs every answer it emits (one answer per received query, same asker and id); "
